@@ -50,8 +50,9 @@ def write_replay(pid, tier, seed, v):
     os.makedirs(d, exist_ok=True)
     body = {"property": pid, "tier": tier, "seed": seed, "signature": v["signature"],
             "message": v["message"], "case": _jsonable(v["case"])}
-    if v.get("replay_unit") is not None:
-        body["unit"] = _jsonable(v["replay_unit"])
+    body["mode"] = v.get("replay_mode", "case")
+    if body["mode"] == "unit":
+        body["unit"] = _jsonable(v["unit"])
     sha = hashlib.sha1(json.dumps(body["case"], sort_keys=True).encode()).hexdigest()[:12]
     path = os.path.join(d, sha + ".json")
     with open(path, "w") as f:
@@ -113,11 +114,15 @@ def main(argv=None):
             body = json.load(open(a.replay))
             acc = core.Acc()
             core._worker_init(module.__name__)
-            module.check_case(body["case"], acc)
-            if body.get("unit") is not None and body.get("signature") not in acc.viol_count:
-                # history-dependent violation: replay the whole unit (the recorded case sequence) in this fresh process
-                acc = core.Acc()
+            if body.get("mode") == "unit" and body.get("unit") is not None:
+                # history-dependent violation: the replay artefact is the unit's whole case sequence, executed in this fresh process
                 module.run_unit(body["unit"], acc)
+                keep = body.get("signature")
+                if keep in acc.viol_count:   # report the recorded violation only (the unit may contain others)
+                    acc.violations = [v for v in acc.violations if v["signature"] == keep][:1]
+                    acc.viol_count = type(acc.viol_count)({keep: acc.viol_count[keep]})
+            else:
+                module.check_case(body["case"], acc)
             n_units = 1
         else:
             acc = core.explore(module, tier, seed, a.workers)
@@ -148,41 +153,52 @@ def main(argv=None):
     if new and not a.replay:
         # re-execute each reported case once from its dump: a verdict that does not reproduce
         # is a harness error, not a violation
-        seen_sig = set()
+        by_sig = {}
+        unreproduced = []
         for v in new:
-            if v["signature"] in seen_sig:
+            by_sig.setdefault(v["signature"], []).append(v)
+        for sig, cands in by_sig.items():
+            # cases that carry their own call sequence (e.g. warm-up calls) are the most likely to reproduce alone: try them first
+            cands.sort(key=lambda c: 0 if (isinstance(c.get("case"), dict) and c["case"].get("warm")) else 1)
+            # every verdict is re-executed in a FRESH process from its replay file before it is reported: first a recorded case
+            # alone; if no recorded case reproduces alone (the violation depends on the calls made before it), the whole unit a
+            # case was found in.  Several recorded cases of the signature are tried; the first that reproduces is reported.
+            v = None
+            for mode in ("case", "unit"):
+                for cand in cands[:6 if mode == "case" else 3]:
+                    if mode == "unit" and cand.get("unit") is None:
+                        continue
+                    cand["replay_mode"] = mode
+                    path = write_replay(pid, tier, seed, cand)
+                    env = dict(os.environ, VERIF_KEEP_EVIDENCE="1")
+                    r = subprocess.run([sys.executable, "-W", "ignore", "-m", "mc.engine.cli", pid, "--replay", path], capture_output=True,
+                                       text=True, env=env, cwd=VERIF)
+                    if r.returncode == 1 and ("signature=%s" % sig) in r.stdout:
+                        v = cand
+                        break
+                    if r.returncode == 2:
+                        print("HARNESS-ERROR replay (%s) of a violation crashed:\n%s" % (mode, (r.stdout + r.stderr)[-1500:]))
+                        scratch.cleanup()
+                        return 2
+                if v is not None:
+                    break
+            if v is None:
+                unreproduced.append((sig, cands[0]))
                 continue
-            seen_sig.add(v["signature"])
-            acc2 = core.Acc()
-            try:
-                module.check_case(json.loads(json.dumps(_jsonable(v["case"]))), acc2)
-            except Exception as e:
-                print("HARNESS-ERROR replay of a violation crashed: %r" % (e,))
-                scratch.cleanup()
-                return 2
-            if v["signature"] not in acc2.viol_count and v.get("unit") is not None:
-                # not reproducible from the case alone: it may depend on the cases executed before it in its unit;
-                # re-run that unit once in this process (which has executed nothing of the library yet)
-                acc3 = core.Acc()
-                try:
-                    module.run_unit(json.loads(json.dumps(_jsonable(v["unit"]))), acc3)
-                except Exception as e:
-                    print("HARNESS-ERROR replay of a unit crashed: %r" % (e,))
-                    scratch.cleanup()
-                    return 2
-                if v["signature"] in acc3.viol_count:
-                    v["replay_unit"] = v["unit"]
-                    acc2 = acc3
-            if v["signature"] not in acc2.viol_count:
-                print("HARNESS-ERROR violation %s did not reproduce from its dumped case" % v["signature"])
-                print(json.dumps(_jsonable({k: x for k, x in v.items() if k != "unit"}), indent=1)[:3000])
-                scratch.cleanup()
-                return 2
             path = write_replay(pid, tier, seed, v)
             replays.append(path)
             print("VIOLATION property=%s replay=%s" % (pid, path))
             print("  signature=%s count=%d" % (v["signature"], acc.viol_count[v["signature"]]))
             print("  " + v["message"][:1500])
+        for sig, cand in unreproduced:
+            # observed during the exploration but not reproducible from a fresh process (depends on state left by other units)
+            print("NOTE unreproduced signature=%s count=%d (observed in the exploration, not reproducible from one unit in a fresh process)" % (
+                sig, acc.viol_count[sig]))
+        if not replays:
+            print("HARNESS-ERROR no observed violation reproduced in a fresh process (recorded cases alone, then their units): %s" % [s_ for s_, _ in unreproduced])
+            print(json.dumps(_jsonable({k: x for k, x in unreproduced[0][1].items() if k != "unit"}), indent=1)[:3000])
+            scratch.cleanup()
+            return 2
         rc = 1
         scratch.cleanup()
     elif new and a.replay:
